@@ -608,14 +608,25 @@ func verifLemmaMaxBodyTight(c *channelInstance, m *Message, chunkSize int, chunk
 // response handler: without an error the handler ran (once, on a non-nil response) and returned nil.
 // (Request header mutation of req and transport state are not modelled; no verified caller reads them.)
 //@ func (*SecureChannel).SendRequest
-//@   props C18 C22 C21
+//@   props C22 C21
+//@   assumed
+//@   requires s != nil
+//@   assigns map(s.handlers), any SecureChannel.requestID, any channelInstance.sequenceNumber
+//@   calls h
+//@   ensures h != nil && err == nil ==> ran_h && res_h == nil
+
+// The ensures clause of the assumed contract above is VERIFIED on the real code (variant contracts
+// @handoff, C18); what stays assumed there is the frame (what the send path writes besides running h).
+//@ func (*SecureChannel).SendRequest@handoff
+//@   props C18
 //@   frame_only
+//@   use (*SecureChannel).SendRequestWithTimeout@handoff
 //@   requires s != nil
 //@   assigns *
 //@   calls h
 //@   ensures [C18:handler-ran] h != nil && err == nil ==> ran_h && res_h == nil
 
-//@ func (*SecureChannel).SendRequestWithTimeout
+//@ func (*SecureChannel).SendRequestWithTimeout@handoff
 //@   props C18
 //@   frame_only
 //@   requires s != nil
